@@ -57,10 +57,10 @@ fn generate(rng: &mut Rng) -> C14Sc {
     let expiry = *rng.pick(&[0u64, 1, 60, 21_600, 1_000_000_000]);
     let secret: Option<Vec<u8>> = match rng.below(3) {
         0 => None,
-        1 => Some(b"s3cret".to_vec()),
+        1 => Some(if rng.chance(1, 3) { b" s3cret with spaces\n".to_vec() } else { b"s3cret".to_vec() }),
         _ => Some(b"a-much-longer-operator-secret-0123456789".to_vec()),
     };
-    let timeout_s = *rng.pick(&[1u64, 5, 30, 120, 600]);
+    let timeout_s = *rng.pick(&[1u64, 5, 30, 120, 600, 0]);
     // with PROXY protocol the client is admitted once its header is complete; the header itself has to
     // arrive within the timeout
     let proxy = if rng.chance(1, 4) { Some((true, true)) } else { None };
@@ -88,7 +88,7 @@ fn generate(rng: &mut Rng) -> C14Sc {
                 right_secret: rng.chance(3, 4),
             },
             4 => Role::Silent,
-            5 => Role::Trickle { gap_ns: secs(rng.range(1, (timeout_s / 4).max(1))) },
+            5 => Role::Trickle { gap_ns: secs(rng.range(1, (timeout_s / 4).max(2))) },
             6 | 7 => Role::StopsAfter { frames: rng.range(1, 7) as usize },
             8 => Role::NeverReads { after: rng.range(0, 6) as usize },
             _ => Role::EchoForever,
@@ -152,7 +152,7 @@ fn generate(rng: &mut Rng) -> C14Sc {
             }
             spec.preamble = Some(h);
             if rng.chance(1, 2) {
-                let d = *rng.pick(&[secs(1), secs(timeout_s) / 2, secs(timeout_s) - ms(500)]);
+                let d = (*rng.pick(&[secs(1), secs(timeout_s) / 2, secs(timeout_s).saturating_sub(ms(500))])).max(ms(1));
                 spec.cuts.push(Cut { at: rng.range(1, hl - 1), gate: Gate::Delay { ns: d }, spurious: 0 });
             }
         }
@@ -206,6 +206,9 @@ pub fn check(sc: &C14Sc, out: &NetOutcome, rep: &mut RunReport) {
                 "closed_within_timeout",
                 format!("client {i} ({role:?}) admitted at {acc} ns, timeout {} ns, server end closed at {:?}", cfg.timeout_ns, other),
             ),
+        }
+        if cfg.timeout_ns == 0 {
+            continue; // a zero timeout leaves no time to serve anything: only the deadline rule applies
         }
         match role {
             Role::FrameLen { len } => {
@@ -279,7 +282,7 @@ impl Check for C14 {
         if !net_domain_ok(&sc.net) {
             return RunReport::default();
         }
-        if sc.roles.len() != sc.net.clients.len() || sc.net.cfg.limiter.is_some() || sc.net.cap_ns < 2 * sc.net.cfg.timeout_ns + secs(10) || sc.net.cfg.timeout_ns < secs(1) || sc.net.cfg.timeout_ns % secs(1) != 0 {
+        if sc.roles.len() != sc.net.clients.len() || sc.net.cfg.limiter.is_some() || sc.net.cap_ns < 2 * sc.net.cfg.timeout_ns + secs(10) || sc.net.cfg.timeout_ns % secs(1) != 0 {
             return RunReport::default();
         }
         // roles and client programs must still agree (the shrinker may alter either)
